@@ -19,6 +19,12 @@ class Prop:
     quick_twice = 10
     assumptions = COMMON_ASSUMPTIONS
     rule = ""
+    technique = "deterministic simulation with fault injection: seeded search over scenarios, schedules and faults"
+    level_text = ("seeded exploration: many small generated projects and histories executed by the real "
+                  "Conductor code under a simulated kernel/clock/scheduler; the oracle is evaluated on every "
+                  "run; evidence over the seeds explored, not a proof")
+    level_note = ("trusts the reference model (cverif/model.py), the fake kernel's fidelity to Linux process "
+                  "semantics, the measured CPython 3.12 signal check points, SQLite/tmpfs atomicity under kill")
 
     def __init__(self, pid, gen, check, rule, **kw):
         self.pid = pid
